@@ -600,13 +600,39 @@ func (c *Ctx) JobsW(name string, n int, workersPerJob int, body func(job int)) {
 			defer func() { <-sem }()
 			pf := filepath.Join(work, fmt.Sprintf("partial-%s-%d.json", name, j))
 			os.Remove(pf)
-			cmd := exec.Command(os.Args[0], os.Args[1:]...)
-			cmd.Env = append(os.Environ(), fmt.Sprintf("VERIF_JOB=%s:%d", name, j), "VERIF_PARTIAL="+pf,
-				fmt.Sprintf("VERIF_WORKERS=%d", workersPerJob), fmt.Sprintf("GOMAXPROCS=%d", workersPerJob+1), "VERIF_CPUPROFILE=")
 			var stderr, stdout strings.Builder
-			cmd.Stderr = &stderr
-			cmd.Stdout = &stdout
-			err := cmd.Run()
+			var err error
+			for attempt := 0; ; attempt++ {
+				stderr.Reset()
+				stdout.Reset()
+				os.Remove(pf)
+				cmd := exec.Command(os.Args[0], os.Args[1:]...)
+				cmd.Env = append(os.Environ(), fmt.Sprintf("VERIF_JOB=%s:%d", name, j), "VERIF_PARTIAL="+pf,
+					fmt.Sprintf("VERIF_WORKERS=%d", workersPerJob), fmt.Sprintf("GOMAXPROCS=%d", workersPerJob+1), "VERIF_CPUPROFILE=")
+				cmd.Stderr = &stderr
+				cmd.Stdout = &stdout
+				err = cmd.Run()
+				if err == nil {
+					break
+				}
+				// a worker that could not be started, or could not get a thread
+				// (process table full, out of descriptors), says nothing about
+				// the code under test: wait and try again
+				_, exited := err.(*exec.ExitError)
+				se := stderr.String()
+				env := !exited || strings.Contains(se, "failed to create new OS thread") || strings.Contains(se, "resource temporarily unavailable") || strings.Contains(se, "too many open files")
+				if !env {
+					break
+				}
+				if attempt >= 4 {
+					mergeMu.Lock()
+					c.NotExhaustive(fmt.Sprintf("worker %s:%d could not run on this machine (%v); its share of the space is missing", name, j, err))
+					mergeMu.Unlock()
+					fmt.Fprintf(os.Stderr, "worker %s:%d could not run: %v\n", name, j, err)
+					return
+				}
+				time.Sleep(time.Duration(3*(attempt+1)) * time.Second)
+			}
 			mergeMu.Lock()
 			defer mergeMu.Unlock()
 			if s := stdout.String(); s != "" {
